@@ -36,6 +36,13 @@ fn corpus() -> Vec<(Vec<&'static str>, Vec<&'static str>, Vec<&'static str>, Vec
         (vec!["[+son] > [-voice]", "t > [+lab]"], vec!["man.ta", "ra.li"], vec![], vec!["V:[+nasal] => +q"]),
         (vec!["k > [+round, -back] / _i", "a > [+rtr]"], vec!["ka.ki", "ŋǃa.ki"], vec!["kh > x"], vec!["$ > *"]),
         (vec!["p > [αPLACE] / _[+cons, αPLACE]"], vec!["ap.ta", "ap.ka", "ap.qa"], vec![], vec![]),
+        // words that are different strings but the same (or nearly the same) structure: Americanist vs IPA spelling,
+        // ASCII shorthands vs IPA marks, phrases vs single words, literal repeats — a result reused under a lossy
+        // notion of "same word" shows up as an order- or neighbour-dependent answer
+        (vec!["a > e / _#"], vec!["¢a", "t͡sa", "ƛa", "t͡ɬa"], vec![], vec![]),
+        (vec!["a > e / _#"], vec!["ła.ña", "ɬa.ɲa", "¢a t͡sa", "t͡sa ¢a"], vec![], vec![]),
+        (vec!["V > [+nasal] / _#"], vec!["'ka:", "ˈkaː", "ka:", "ka;"], vec![], vec![]),
+        (vec!["t > d"], vec!["ta", "ta", "ta51", "ˈta"], vec![], vec![]),
     ]
 }
 
